@@ -10,8 +10,9 @@
 (* a1 {} a2 {v1,v4} a3 {v2,v4} a4 {v3} (default) and a5 {v4} (fusion);      *)
 (* structures of 1..Copies copies; evidence = D reads per copy planted from *)
 (* every multiset of the catalogue, then ONE op (a variant or the reference *)
-(* of a site) perturbed: zeroed, -D/2, +D/2 or +D reads; novel penalty in   *)
-(* Pens (fixed-point units).                                                *)
+(* of a site) perturbed: zeroed, -D/2, +D/2 or +D reads; novel penalty      *)
+(* PenSeq[1..NPens] (fixed-point units; explored in that order so that     *)
+(* witnesses prefer the default).                                          *)
 (*                                                                          *)
 (* Drop = {}  : invariant Refines  = EncodingRefinesSemantics on every case. *)
 (* Drop = {K} : invariant RuleRedundant = "the allowed outputs (gap 0) and   *)
@@ -21,7 +22,8 @@
 (*   without K>> (a flat tuple: tlc.parse_prints cannot read wrapped records). *)
 (***************************************************************************)
 EXTENDS MajorEncoding, TLCExt
-CONSTANTS D, Copies, Pens, Margin
+CONSTANTS D, Copies, NPens, Margin
+PenSeq == <<210000, 0>>          \* major_novel 21 (default) first, then 0 ("no penalty")
 
 Vars == << [si |-> 1, ins |-> FALSE], [si |-> 1, ins |-> FALSE], [si |-> 2, ins |-> TRUE], [si |-> 3, ins |-> FALSE] >>
 Cfgs == << [name |-> "1", cn |-> <<1, 1, 1>>], [name |-> "f", cn |-> <<0, 1, 1>>] >>
@@ -59,7 +61,7 @@ BagsFor(st) == LET c0 == [p |-> Par(0), sites |-> <<>>, vars |-> Vars, cfgs |-> 
 Deltas == {0 - 3 * D, 0 - (D \div 2), D \div 2, D}
 Bumps == {<<0, 0>>} \cup {<<t, s>> : t \in {1, 2, 3, 4, 11, 12, 13}, s \in Deltas}
 
-Init == \E st \in Structs : \E x \in BagsFor(st) : \E pen \in Pens :
+Init == \E pk \in 1..NPens : \E st \in Structs : \E x \in BagsFor(st) : LET pen == PenSeq[pk] IN
             /\ stage = "bag" /\ info = [st |-> st, x |-> x, pen |-> pen, bump |-> <<0, 0>>] /\ case = <<>>
 Next == /\ stage = "bag"
         /\ \E b \in Bumps : /\ stage' = "case"
